@@ -428,6 +428,28 @@ def add_same_name_shapes(root: File, rng: random.Random, ext_ok: bool = True) ->
     root.add(both)
 
 
+def add_alias_reach_shapes(root: File, rng: random.Random) -> None:
+    """Messages that reach an enum-bearing (or signed, or nested) message ONLY through aliases: alias of an array of messages, arrays of
+    that alias (2-D), alias used as a plain field - and no enum field of their own.  Anything that decides per message "does it contain
+    X" by walking fields without looking through aliases decides wrongly here."""
+    tag = "".join(rng.choice("abcdefghijklmnopqrstuvwxyz") for _ in range(4)).capitalize()
+    e = root.add(Enum("Tint" + tag, rng.choice([2, 3, 9]), [(f"TINT_{tag.upper()}_A", 0), (f"TINT_{tag.upper()}_B", 1), (f"TINT_{tag.upper()}_C", 3)]))
+    pen = Message("Pen" + tag)
+    pen.add(Field("color", Ref(e), 1))
+    pen.add(Field("width", Base("int", rng.choice([3, 12, 24])), 2))
+    root.add(pen)
+    pens = root.add(Alias("Pens" + tag, Arr(Ref(pen), 2)))
+    case = Message("Case" + tag)
+    case.add(Field("pens", Ref(pens), 1))
+    case.add(Field("count", Base("uint", 5), 2))
+    root.add(case)
+    crate = Message("Crate" + tag)
+    crate.add(Field("rows", Arr(Ref(pens), 2), 1))
+    crate.add(Field("inner", Ref(case), 2))
+    crate.add(Field("label", Base("byte"), 3))
+    root.add(crate)
+
+
 def add_empty_shapes(root: File, rng: random.Random, ext_ok: bool = True) -> None:
     """Definitions without content in every position: empty messages (plain and extensible - 0 and 16 bits) as fields, array elements and
     the only content of other messages, two levels deep, with data after each of them."""
